@@ -816,8 +816,14 @@ def delete_pointless_statements(source: str) -> str:
     """
     ast_tree = core.parse(source)
     safe_callables = parsing.safe_callable_names(ast_tree)
+    # Assigning to _ only is meaningless if nothing reads _, like print(_("text")) does
+    underscore_is_read = any(core.walk(ast_tree, ast.Name(id="_", ctx=ast.Load)))
     for node in itertools.chain([ast_tree], parsing.iter_bodies_recursive(ast_tree)):
         for i, child in enumerate(node.body):
+            if underscore_is_read and any(
+                core.walk(child, ast.Name(id="_", ctx=(ast.Store, ast.Del)))
+            ):
+                continue
             if not core.has_side_effect(child, safe_callables):
                 if i > 0 or not _is_pointless_string(child):  # Docstring
                     yield child, None
